@@ -1,6 +1,6 @@
 (** Dispatch table used by the extracted runner: property number -> model runner / monitor. *)
 From RRE Require Import Base.Sx.
-From RRE Require Model.Watermark Model.Tms Model.ProofGraph Model.Undo Model.Module Model.Window Model.StreamAlpha Model.Join Model.KB Model.Index Model.State Model.ReteAgenda Model.EngineConc Model.Parallel Model.Incremental Model.ExprShape Model.BwExpr Model.ForwardSpec Model.Grl Model.Backward.
+From RRE Require Model.Watermark Model.Tms Model.ProofGraph Model.Undo Model.Module Model.Window Model.StreamAlpha Model.Join Model.KB Model.Index Model.State Model.ReteAgenda Model.EngineConc Model.Parallel Model.Incremental Model.ExprShape Model.BwExpr Model.BwSmall Model.ForwardSpec Model.Grl Model.Backward.
 Open Scope Z_scope.
 
 Definition run_by_id (id : Z) (c : sx) : sx :=
@@ -12,6 +12,10 @@ Definition run_by_id (id : Z) (c : sx) : sx :=
   | 5 => match c with
          | L [A 5; t] => match getZs t with Some t => BwExpr.run_text t | None => sx_bad end
          | L [A 4; t] => match getZs t with Some t => BwExpr.run_query_text t | None => sx_bad end
+         | L [A 10; t] => match getZs t with Some t => BwSmall.run_agg t | None => sx_bad end
+         | L [A 11; t] => match getZs t with Some t => BwSmall.run_disj t | None => sx_bad end
+         | L [A 12; t] => match getZs t with Some t => BwSmall.run_nested t | None => sx_bad end
+         | L [A 13; t] => match getZs t with Some t => BwSmall.run_has_nested t | None => sx_bad end
          | _ => ExprShape.run_sx c end
   | 6 => Incremental.run_sx c
   | 7 => ReteAgenda.run_sx c
